@@ -41,7 +41,7 @@ EXPECTED_ACTIONS = ["First", "AssignPrev", "OpenNext", "AssignNext", "PlaceNext"
 # (Thunks.tla, Fixed = TRUE: PlaceBack); then ReachServable is an invariant of the model, its runs are
 # replayed with 1 unit = 1 MiB (the real function's 2 MiB slack is a constant, R is a parameter), and
 # the old placement (Fixed = FALSE, mc/Thunks_servable.cfg) is only the broken variant TLC must reject.
-FIXED_PLACEMENT = False
+FIXED_PLACEMENT = True
 MIB = 1 << 20
 REAL_RANGE = 128 * MIB
 SLACK = 2 * MIB
